@@ -1,7 +1,7 @@
 (* Proofs about the scanner model: every token decomposes the input into trivia, body and rest;
    scanning terminates within the fuel; tokens tile the text; the stream ends with exactly one
-   end-of-file token; identifiers are maximal and keywords are whole words; operators obey
-   longest match.  All statements are for all inputs. *)
+   end-of-file token; identifiers are maximal and keywords are whole words.  All statements are
+   for all inputs.  (Operators obey longest match: Proofs/ScannerOps.v.) *)
 From Formula Require Import Base.Utf8 Lex.Chars Lex.Scanner Lex.ScanSpec Proofs.Utf8Facts.
 
 (* ---------- lengths of step lists ---------- *)
